@@ -508,7 +508,7 @@ def check_db(chk, db, tab, terms, jobs):
                     twins = [k2 for k2, *_ in indel_keys if k2 != key and abs(k2[0] - key[0]) < 200 and same_hap(k2)]
                     if twins:
                         chk.count(st + ":indel-anchoring", "skipped:database-lists-an-equivalent-indel-twice")
-                        jobs.append(("anchor-note", db, (p, op, key, va, eqk)))
+                        jobs.append(("anchor-note", db, (p, op, key, va, None)))      # None: the table of equivalent spellings belongs to the twin
                         terms.append("OZ 0")
                         continue
                 if not ok or not ok_key or hits != 1:
@@ -619,7 +619,9 @@ def decode_jobs(chk, jobs, vals):
                     mk = common.dopt(val[8], lambda t: (t[0], d_vop(t[1])))
                     if mk is not None:
                         mk = (mk[0], {"ins": "ins", "del": "del"}[mk[1][0]] + mk[1][1])
-                    if (mk is None and eqk) or (mk is not None and mk not in eqk):
+                    if eqk is None:
+                        chk.count(db.stream + ":indel-anchoring", "equivalent-key-comparison-skipped:twin-entries")
+                    elif (mk is None and eqk) or (mk is not None and mk not in eqk):
                         chk.mismatch("equivalent-indel-key", dict(ident, variant=[p, op]), mk, eqk)
         elif kind == "holds":
             p, op, py = x
